@@ -461,6 +461,10 @@ def check_c08(tier, seed):
     from . import hgens
     run_batch(out, "handle", "A", hgens.c08_handle_histories(tier) + hgens.setlen_within_unit_histories(tier) + hgens.dirty_growth_histories(tier),
               spec="Trace_Handle", driver="hdrive")
+    # files written by others: growth into the surplus sectors of an over-long chain
+    from . import imagechecks
+    run_batch(out, "surplus", "A", imagechecks.surplus_histories(out, tier, seed))
+    imagechecks.machinery_errors(out)
     return finish(out, "model_checking",
                   "design level: MC_Phys with the bytes of every sector in the state (InvData, ZeroExposure; exhaustive at tiny geometry); "
                   "CfbTree.SetLen extends with a zero run; all writes use fresh non-zero fill bytes so stale data is a mismatch in api / Abs(img) / reopen dumps. "
